@@ -1568,10 +1568,9 @@ func (p *Parser) parseSwitchStatement(scriptName string) (*ast.SwitchStatement, 
 		operandToken.Literal = strings.Join(parts, " ")
 		statement.Operand = operandToken
 	} else {
-		statement.Operand = token.Token{
-			Type:    token.IDENT,
-			Literal: *autoVarOperand,
-		}
+		statement.Operand = preambleStatement.Token
+		statement.Operand.Type = token.IDENT
+		statement.Operand.Literal = *autoVarOperand
 		if err := p.expectPeek(token.RPAREN); err != nil {
 			return nil, nil, nil, NewParseError(originalToken, "missing closing parenthesis of switch statement value")
 		}
@@ -1854,10 +1853,9 @@ func (p *Parser) parseLeafBooleanExpression(scriptName string) (*ast.OperatorExp
 			return nil, nil, err
 		}
 		operatorExpression.Type = token.VAR
-		operatorExpression.Operand = token.Token{
-			Type:    token.IDENT,
-			Literal: *autoVarOperand,
-		}
+		operatorExpression.Operand = preambleStatement.Token
+		operatorExpression.Operand.Type = token.IDENT
+		operatorExpression.Operand.Literal = *autoVarOperand
 		operatorExpression.PreambleStatement = preambleStatement
 		resultImpData.add(autoVarImpData)
 	}
